@@ -1,7 +1,10 @@
 package state
 
 import (
+	"context"
+
 	"errors"
+	"github.com/ProtonMail/gluon/internal/contexts"
 
 	"github.com/ProtonMail/gluon/db"
 	"github.com/ProtonMail/gluon/imap"
@@ -53,7 +56,8 @@ func VerifC16Seq() {
 	list, uids := verifView(n)
 	set := verifSeqSet(r)
 
-	res, err := list.getMessagesInSeqRange(set)
+	// through the snapshot's entry point (what FETCH / STORE / COPY / SEARCH call), sequence-number mode
+	res, err := (&snapshot{messages: list}).getMessagesInRange(context.Background(), set)
 
 	// reference
 	wantErr := false
@@ -116,7 +120,7 @@ func VerifC16UID() {
 	list, uids := verifView(n)
 	set := verifSeqSet(r)
 
-	res, err := list.getMessagesInUIDRange(set)
+	res, err := (&snapshot{messages: list}).getMessagesInRange(contexts.AsUID(context.Background()), set)
 
 	if n == 0 {
 		vsymCover("uid-empty")
